@@ -211,7 +211,18 @@ func main() {
 				os.Exit(1)
 			}
 		}
-		os.Exit(checkProp(P, *prop, *tier, perObl, *verbose, *keep, t0))
+		rc := checkProp(P, *prop, *tier, perObl, *verbose, *keep, t0)
+		if *prop == "C16" && *tier == "thorough" {
+			// thorough: besides the proofs, the whole differential suite generated from the
+			// grammar is run on the real code (every type, wrapper and table)
+			if txt, bad := replayXDRAll(P); bad {
+				fmt.Printf("VIOLATION property=C16 replay=%s obligation=nfstypes/differential-suite\n", writeTextReplay("C16", "differential-suite", txt))
+				rc = 1
+			} else {
+				fmt.Println("C16 thorough: differential suite generated from the grammar agrees with the real code on every type, wrapper and table")
+			}
+		}
+		os.Exit(rc)
 	default:
 		fmt.Fprintln(os.Stderr, "unknown command", cmd)
 		os.Exit(2)
